@@ -378,6 +378,7 @@ type c09Env struct {
 	nops      int
 	bver      uint64
 	bktHeavy  bool
+	sender    *RegionRequestSender
 	txn       bool // the cache runs behind CodecPDClient in txn mode: region keys are memcomparable-encoded at PD
 }
 
@@ -979,6 +980,81 @@ func (e *c09Env) opReResolve() {
 		return "ok"
 	})
 }
+// one real request through RegionRequestSender.SendReqCtx on a location obtained by LocateKey. What the sender does to the
+// cache (invalidate, switch of the work peer, store fail-epoch bumps, reload flags, OnRegionEpochNotMatch) is not visible
+// call by call; the model side has to explain the dump afterwards as a composition of its cache operations.
+func (e *c09Env) opSend(k []byte, loc *KeyLocation) (served bool, store uint64) {
+	e.op("send", []string{c09hx(k), c09Ver(loc.Region)}, func() string {
+		if e.sender == nil {
+			e.sender = NewRegionRequestSender(e.cache, &c09CodecClient{e.rpc, e.cache.codec}, oracle.NoopReadTSValidator{})
+		}
+		bo := retry.NewBackofferWithVars(context.Background(), 1500, nil)
+		req := tikvrpc.NewRequest(tikvrpc.CmdRawGet, &kvrpcpb.RawGetRequest{Key: k}, kvrpcpb.Context{})
+		resp, rpcCtx, _, err := e.sender.SendReqCtx(bo, req, loc.Region, time.Second, tikvrpc.TiKV)
+		if err != nil || resp == nil {
+			return "ok senderr"
+		}
+		rerr, _ := resp.GetRegionError()
+		ctxs := "-"
+		if rpcCtx != nil && rpcCtx.Store != nil {
+			ctxs = fmt.Sprintf("%s@%d", c09Ver(rpcCtx.Region), rpcCtx.Store.StoreID())
+		}
+		if rerr == nil {
+			served, store = true, rpcCtx.Store.StoreID()
+			return fmt.Sprintf("ok served %d", store)
+		}
+		switch {
+		case rerr.GetEpochNotMatch() != nil:
+			var ds []string
+			for _, m := range rerr.GetEpochNotMatch().CurrentRegions {
+				ds = append(ds, c09Desc(m, nil))
+			}
+			dj := "_"
+			if len(ds) > 0 {
+				dj = strings.Join(ds, ";")
+			}
+			return fmt.Sprintf("ok regionerr epochnotmatch %s %s", ctxs, dj)
+		case rerr.GetNotLeader() != nil:
+			return "ok regionerr notleader " + ctxs
+		case rerr.GetRegionNotFound() != nil:
+			return "ok regionerr regionnotfound " + ctxs
+		default:
+			return "ok regionerr other " + ctxs
+		}
+	})
+	return
+}
+
+// what tikv.CodecClient does around the RPC client: region errors come back with decoded region boundaries
+type c09CodecClient struct {
+	*mocktikv.RPCClient
+	codec apicodec.Codec
+}
+
+func (c *c09CodecClient) SendRequest(ctx context.Context, addr string, req *tikvrpc.Request, timeout time.Duration) (*tikvrpc.Response, error) {
+	req, err := c.codec.EncodeRequest(req)
+	if err != nil {
+		return nil, err
+	}
+	resp, err := c.RPCClient.SendRequest(ctx, addr, req, timeout)
+	if err != nil {
+		return nil, err
+	}
+	return c.codec.DecodeResponse(req, resp)
+}
+
+// request rounds through the real sender: LocateKey (a modelled lookup) + SendReqCtx (explained afterwards)
+func (e *c09Env) senderRounds(k []byte, max int) (rounds int, served bool, store uint64) {
+	for rounds < max && !served && !e.halted() {
+		rounds++
+		loc := e.opLocate(k)
+		if loc == nil {
+			continue
+		}
+		served, store = e.opSend(k, loc)
+	}
+	return
+}
 func (e *c09Env) opCtx(v RegionVerID) *RPCContext {
 	var out *RPCContext
 	e.op("ctx", []string{c09Ver(v)}, func() string {
@@ -1222,10 +1298,15 @@ func (e *c09Env) stuck() {
 		}
 	}
 	e.x("stuck end")
+	for i := 0; i < 2 && !e.halted(); i++ {
+		if loc := e.opLocate(k); loc != nil {
+			e.opSend(k, loc)
+		}
+	}
 }
 // decommission: a store that leads a warm cached region is drained (leaders moved, peers removed) and becomes a tombstone
 // in PD while the region is idle; the periodic store check notices it. Then real requests (LocateKey + RegionRequestSender)
-// must be served by the current leader within a few rounds. The sender changes the cache outside the model: last phase.
+// must be served by the current leader within a few rounds.
 func (e *c09Env) decommission() {
 	if e.halted() || len(e.stopped) > 0 {
 		return
@@ -1281,34 +1362,11 @@ func (e *c09Env) decommission() {
 	e.topoDone("decommission store %d", victim)
 	e.opReResolve()
 	e.x("sender begin\t%s", c09hx(key))
-	sender := NewRegionRequestSender(e.cache, e.rpc, oracle.NoopReadTSValidator{})
-	served, rounds, store := false, 0, uint64(0)
-	func() {
-		defer func() {
-			if r := recover(); r != nil {
-				e.x("sender panic %v", r)
-			}
-		}()
-		for rounds < 10 && !served {
-			rounds++
-			bo := retry.NewBackofferWithVars(context.Background(), 2000, nil)
-			loc, err := e.cache.LocateKey(bo, key)
-			if err != nil {
-				continue
-			}
-			req := tikvrpc.NewRequest(tikvrpc.CmdRawGet, &kvrpcpb.RawGetRequest{Key: key}, kvrpcpb.Context{})
-			resp, rpcCtx, _, err := sender.SendReqCtx(bo, req, loc.Region, time.Second, tikvrpc.TiKV)
-			if err != nil || resp == nil {
-				continue
-			}
-			if rerr, _ := resp.GetRegionError(); rerr != nil {
-				continue
-			}
-			served, store = true, rpcCtx.Store.StoreID()
-		}
-	}()
+	rounds, served, store := e.senderRounds(key, 10)
+	if e.halted() {
+		return
+	}
 	e.x("sender end\t%s\t%d\t%v\t%d", c09hx(key), rounds, served, store)
-	e.nops = e.opIdx // nothing after this is compared with the model
 }
 func (e *c09Env) converge(nkeys int) {
 	if e.halted() {
@@ -1328,6 +1386,14 @@ func (e *c09Env) converge(nkeys int) {
 			return
 		}
 		e.x("conv end\t%s\t%d\t%v", c09hx(k), rounds, ok)
+	}
+	if !e.halted() {
+		k := e.key()
+		e.x("sender begin\t%s", c09hx(k))
+		rounds, served, store := e.senderRounds(k, 10)
+		if !e.halted() {
+			e.x("sender end\t%s\t%d\t%v\t%d", c09hx(k), rounds, served, store)
+		}
 	}
 	// regression of F08 (fixed by 0dbaf7e): the end of the key space belongs to the last region, cached or not
 	e.opLocateEnd(nil)
